@@ -141,6 +141,21 @@ def run(st, tier, seed):
             elif e.stage != "compile":
                 res.violations.append({"what": "stage %s fails for the name-collision probe: %r" % (e.stage, e.exc),
                                        "input": {"files": fb.texts, "entry": "top"}, "sig": "C06:stage:" + e.stage, "cmd": "pepper-finish"})
+    # directed (defect F18, repaired): optimisation bounds the compiler prints with an exponent must flow through the chain
+    for opt_ in (["1000000", "0.00001"] if tier == "quick" else ["1000000", "0.00001", "12345678", "0.000025", "1e6", "100000", "0.0001"]):
+        eb = progen.Bundle()
+        eb.texts["top.comp"] = ("declare component T: ->\nsequence a = \"6N\"\nsequence b = \"4S\"\nstrand A = a b\nstrand B = b* a*\n"
+                                "structure [%snt] D = A + B : 10( + 10)\n" % opt_)
+        eb.entry = "top"
+        res.count("directed:exponent-bound")
+        res.evaluations += 1
+        with core.scratch("pepper_c06f18_") as d:
+            try:
+                pipeline.run_pipeline(eb, rng, d)
+            except pipeline.Stage as e:
+                res.violations.append({"what": "a program whose optimisation bound is [%snt] is accepted by the compiler but stage '%s' of the chain fails: %r" % (opt_, e.stage, e.exc),
+                                       "input": {"files": eb.texts, "entry": "top"}, "sig": "C06:F18-exponent-bound:" + e.stage,
+                                       "cmd": "pepper-compiler top; pepper-design-spurious top.pil"})
     # command-line tools
     m = 4 if tier == "quick" else 40
     for i in range(m):
@@ -185,5 +200,12 @@ def run(st, tier, seed):
             if r3.returncode != 0 or not os.path.exists(os.path.join(d, "o.seqs")):
                 res.violations.append({"what": "pepper-finish fails on a valid design", "input": inp, "observed": r3.stderr[-400:],
                                        "sig": "C06:cli-finish", "cmd": "pepper-finish o --seqs o.seqs --strands o.strands"})
+    # text level: the .pil the compiler wrote for generated programs and for the repository examples, read by the model of
+    # the PIL reader and by the real one (closes the text hop of end_to_end_from_text)
+    if drv is not None:
+        import parsecorr_pil
+        rt = core.rng_for(seed, "c06-text")
+        parsecorr_pil.check_texts(res, drv, [(l, t) for l, t, _b, _r in parsecorr_pil.compiled_texts(rt, 40 if tier == "quick" else 1500, res)], "text-compiled")
+        parsecorr_pil.check_texts(res, drv, parsecorr_pil.example_texts(rt, 8 if tier == "quick" else 10 ** 6), "text-examples")
     res.programs = res.evaluations
     return res
